@@ -154,6 +154,7 @@ def near_boundary(case):
 class C06(Property):
     id = 'C06'
     number = 6
+    fuzz_targets = {'fuzz_struct': 200000}      # atheris campaign in the thorough tier (crashes are replayed through run())
     technique = ("bounded-exhaustive enumeration of the integer / length boundary domains plus Hypothesis search over "
                  "floats, text, date-times and object names, each value encoded by the real write_struct dispatch and "
                  "decoded by an independent decoder; unrepresentable values must raise")
